@@ -1,4 +1,6 @@
 import MlModel.Lemmas.Pipe
+import MlModel.Lemmas.PipeBatch
+import MlModel.Properties.C19
 /-!
 # C08 — pipeline operators route data exactly as a reference interpreter
 
@@ -9,7 +11,7 @@ Vocabulary (all in `Model/Pipe.lean`, `Model/Iter.lean`):
 * `Ref.chainEvents ignore ops src` — the reference: `Ref.semCall`/`Ref.semWrite` (one record through
   one operator) lifted to streams, operator after operator; `observe` = what a caller sees;
 * `OpOK op` — no batch sizes, `SELF` is not the first of several output keys, a predicate never
-  returns a tuple;
+  returns a tuple; operators *with* batch sizes: see the section "operators with batch sizes";
 * `Ref.CleanRun ignore ops src` — no skippable error is *passed on* between operators (vacuous
   with skipping off: `cleanRun_false`).
 -/
@@ -23,9 +25,10 @@ the caller of the real runner observes — outputs in order, then the first erro
 the reference interpreter produces.
 
 Full-strength statement: the same for *every* chain the builder accepts.  Missing here:
-* operators with `fn_batch_size` / `batch_size` (`OpOK.unbatched`).  For `apply` / `select` the
-  re-grouping is the subject of C19 (`C19_treefn`); for `assign` the statement is **false** on the
-  real code (finding F-C08-assign-rebatch = F-C19-assign, `Witness/C08.lean`);
+* operators with `fn_batch_size` / `batch_size` (`OpOK.unbatched`).  `apply` / `select` / `batch`
+  with batch sizes are covered by `C08_refines_batched_partial` below (which extends this theorem:
+  `C08_refines_batched_extends`); for `assign` the statement is **false** on the real code (finding
+  F-C08-assign-rebatch = F-C19-assign, `Witness/C08.lean`);
 * `SELF` as the first of several output keys of an `apply` (`OpOK.selfAlone`; the builder rejects
   it for `assign` only) and predicates that return tuples (`OpOK.pred`): what the real code does
   there depends on book-keeping keys and has no reference meaning;
@@ -42,6 +45,157 @@ theorem C08_refines_noskip_partial (ops : List Op) (hops : ∀ op ∈ ops, OpOK 
     ((Impl.run false ops src).out, (Impl.run false ops src).err)
       = observe (Ref.chainEvents false ops src) :=
   C08_refines_partial false ops hops src (cleanRun_false ops src)
+
+/-! ## operators with batch sizes (`apply` / `select` with `fn_batch_size` / `batch_size`, `.batch(n)`)
+
+Vocabulary (`Model/Pipe.lean`, section "Reference semantics of apply / select with batch sizes"):
+* a record of a batched operator carries **columns** (a `list` / `tuple` of rows under every key);
+  `Ref.asBatch` reads a tuple of values as a `Rebatch.Batch`;
+* `Ref.regroup t nc (values, error)` — the list-level regrouping into batches of `t` rows
+  (`Rebatch.run`; `Rebatch.online` = only the complete batches if the stream broke off with `error`);
+* `Ref.callGroups` — one call per group, a failing call leaves out its group (skipping on) or ends
+  the stream (skipping off);
+* `Ref.opEventsB` — read the input columns, regroup to `fn_batch_size`, call, regroup to `batch_size`,
+  route every regrouped tuple of output columns into a new record (`Ref.write op .null (.tuple cols)`):
+  **the value under an output key is a column of `batch_size` rows**;
+* `BatchedOK ignore op s src` (`Lemmas/PipeBatch.lean`) — `apply` / `select`, `batch_size > 0`, at
+  least one output key, the selected inputs (if `fn_batch_size`) and the results of the successful
+  calls are equally long columns, and — only with `fn_batch_size` and skipping on — no skippable
+  error reaches the first re-batching generator (the inputs of every record can be read —
+  necessary: finding F-C12-fnbatch-lost; without `fn_batch_size` such a record is skipped,
+  `Ref.skipNT`, and the theorem covers it);
+* `RunOKG ignore ops src` — along the reference run every operator is `OpOK` on a clean stream
+  (no batch sizes) or `BatchedOK` (batch sizes); `Ref.chainEventsG` the reference for such chains. -/
+
+/-- **C08_batched_apply.**  The real iterator stack of an `apply` / `select` with batch sizes —
+`map(_get_inputs)`, the `rebatched_args` *generator*, `map` / `map_ignore_error` of the call,
+`map(_normalize_outputs)`, the second `rebatched_args` generator, `map(_get_outputs)`, with an error
+passing through (and finalising) the generators — produces exactly the events of the list-level
+reference `Ref.opEventsB`, for every `fn_batch_size ≥ 0`, `batch_size > 0`, every number of input and
+output keys, every user function with private state, every incoming batching, every position of a
+failing call or of a failing source element, both skipping modes. -/
+theorem C08_batched_apply (ignore : Bool) (op : Op) (src : List (Ev Val))
+    (h : BatchedOK ignore op op.s0 src) :
+    (Impl.opIterate ignore op src).evs.map (·.ev) = Ref.opEventsB ignore op op.s0 src :=
+  opIterate_batched_spec ignore op src h
+
+/-- **C08_refines_batched_partial.**  `C08_refines_partial` for chains that may contain `apply` /
+`select` / `batch` operators **with batch sizes** anywhere: what the caller of the real runner
+observes is what the reference produces, operator after operator (`Ref.opEvents` record by record
+for operators without batch sizes, `Ref.opEventsB` over the whole stream for those with).
+
+Still missing from the full-strength statement: `assign` with batch sizes (false on the real code:
+F-C08-assign-rebatch, F5); the well-formedness side conditions collected in `BatchedOK`
+(ragged or non-column data makes `rebatched_args` raise; not stated); with skipping on, a record
+with unreadable inputs in front of an operator with `fn_batch_size` (false on the real code:
+F-C12-fnbatch-lost); and the conditions of `C08_refines_partial` for the un-batched operators. -/
+theorem C08_refines_batched_partial (ignore : Bool) (ops : List Op) (src : List (Ev Val))
+    (h : RunOKG ignore ops src) :
+    ((Impl.run ignore ops src).out, (Impl.run ignore ops src).err)
+      = observe (Ref.chainEventsG ignore ops src) := by
+  simp only [Impl.run, topEventsG_spec ignore ops src h]
+
+/-- the batched theorem extends the un-batched one: on chains without batch sizes its hypothesis
+follows from the old ones and its reference is the old reference -/
+theorem C08_refines_batched_extends (ignore : Bool) (ops : List Op) (hops : ∀ op ∈ ops, OpOK op)
+    (src : List (Ev Val)) (hc : Ref.CleanRun ignore ops src) :
+    RunOKG ignore ops src ∧ Ref.chainEventsG ignore ops src = Ref.chainEvents ignore ops src :=
+  ⟨runOKG_of_cleanRun ignore ops hops src hc,
+   chainEventsG_unbatched ignore ops (fun op ho => (hops op ho).unbatched) src⟩
+
+/-- rows of column `c` of a tuple of columns -/
+def colRowsV (cols : List Val) (c : Nat) : List Val := (Ref.asCol (cols.getD c .none)).rows
+
+/-- **C08_batched_rows** — what "the value under the output key" means, per ROW.  Each regrouping
+step of the reference (input columns → groups of `fn_batch_size` rows; result columns → records of
+`batch_size` rows), on well-formed column batches that end normally: raises nothing; column by column
+the rows after the step are exactly the rows before it, in order (so row `i` of *every* column of the
+`k`-th tuple is row `k·t + i` of the stream: the keys stay aligned); every tuple has all `nc` columns
+with one common number of rows, `t` for all but the last, `1..t` for the last; `⌈rows / t⌉` tuples.
+(C19's theorems read through `Ref.regroup`.) -/
+theorem C08_batched_rows {t nc : Nat} (ht : 0 < t) (hnc : 0 < nc) (vs : List (List Val))
+    (hwf : Rebatch.WF nc (vs.map Ref.asBatch)) :
+    (Ref.regroup t nc (vs, none)).2 = none ∧
+    (∀ c, c < nc → ((Ref.regroup t nc (vs, none)).1.map fun cols => colRowsV cols c).flatten
+        = (vs.map fun cols => colRowsV cols c).flatten) ∧
+    (∀ cols ∈ (Ref.regroup t nc (vs, none)).1, cols.length = nc ∧
+        ∃ r, 1 ≤ r ∧ r ≤ t ∧ ∀ c, c < nc → (colRowsV cols c).length = r) ∧
+    (∀ j cols, (Ref.regroup t nc (vs, none)).1[j]? = some cols →
+        j + 1 < (Ref.regroup t nc (vs, none)).1.length → ∀ c, c < nc → (colRowsV cols c).length = t) ∧
+    (Ref.regroup t nc (vs, none)).1.length = (Rebatch.totalRows (vs.map Ref.asBatch) + t - 1) / t := by
+  have hA : ∀ (b : Rebatch.Batch Val) c, colRowsV (Ref.ofBatch b) c = Rebatch.colRows b c := by
+    intro b c
+    unfold colRowsV Ref.ofBatch Rebatch.colRows
+    by_cases hc : c < b.length
+    · have : (b.map Impl.ofCol).getD c .none = Impl.ofCol b[c] := by simp [List.getD, hc]
+      have h2 : b.getD c default = b[c] := by simp [List.getD, hc]
+      rw [this, h2]
+      rcases b[c] with ⟨k, rows⟩
+      cases k <;> rfl
+    · have : (b.map Impl.ofCol).getD c .none = .none := by
+        rw [List.getD_eq_getElem?_getD, List.getElem?_eq_none (by simp; omega)]; rfl
+      have h2 : b.getD c default = default := by
+        rw [List.getD_eq_getElem?_getD, List.getElem?_eq_none (by omega)]; rfl
+      rw [this, h2]; rfl
+  have hB : ∀ (cols : List Val) c, colRowsV cols c = Rebatch.colRows (Ref.asBatch cols) c := by
+    intro cols c
+    unfold colRowsV Ref.asBatch Rebatch.colRows
+    by_cases hc : c < cols.length
+    · simp [List.getD, hc]
+    · have : cols.getD c .none = .none := by
+        rw [List.getD_eq_getElem?_getD, List.getElem?_eq_none (by omega)]; rfl
+      have h2 : (cols.map Ref.asCol).getD c default = default := by
+        rw [List.getD_eq_getElem?_getD, List.getElem?_eq_none (by simp; omega)]; rfl
+      rw [this, h2]; rfl
+  rw [regroup_pos ht]
+  simp only
+  have hrect := MlModel.C19.C19_rect ht hnc (Or.inl rfl) (none : Option Val) hwf
+  have hsizes := MlModel.C19.C19_sizes ht hnc (Or.inl rfl) (none : Option Val) hwf
+  have hcount := MlModel.C19.C19_count ht hnc (Or.inl rfl) (none : Option Val) hwf
+  have herr := MlModel.C19.C19_no_error ht hnc (Or.inl rfl) (none : Option Val) hwf
+  have hcons := fun c hc => MlModel.C19.C19_conserve ht hnc (Or.inl rfl) (none : Option Val) hwf (c := c) hc
+  generalize Rebatch.run t nc none (vs.map Ref.asBatch) = R at *
+  refine ⟨by simp [herr], ?_, ?_, ?_, by simpa using hcount⟩
+  · intro c hc
+    have := hcons c hc
+    simp only [Rebatch.padding, List.append_nil, Rebatch.colConcat] at this
+    simp only [List.map_map, Function.comp_def, hA]
+    simp only [hB]
+    simpa [List.map_map, Function.comp_def] using this
+  · intro cols hcols
+    simp only [List.mem_map] at hcols
+    obtain ⟨b, hb, rfl⟩ := hcols
+    have hr := hrect b hb
+    refine ⟨by simpa [Ref.ofBatch] using hr.1, Rebatch.nrows b, ?_, ?_, ?_⟩
+    · obtain ⟨i, hi⟩ := List.getElem?_of_mem hb
+      by_cases hlast : i + 1 < R.out.length
+      · have := hsizes.1 i b hi hlast; omega
+      · have hlen := (List.getElem?_eq_some_iff.mp hi).1
+        have : R.out.getLast? = some b := by
+          rw [List.getLast?_eq_getElem?]
+          have : R.out.length - 1 = i := by omega
+          rw [this]; exact hi
+        exact (hsizes.2.1 b this).1
+    · obtain ⟨i, hi⟩ := List.getElem?_of_mem hb
+      by_cases hlast : i + 1 < R.out.length
+      · have := hsizes.1 i b hi hlast; omega
+      · have hlen := (List.getElem?_eq_some_iff.mp hi).1
+        have : R.out.getLast? = some b := by
+          rw [List.getLast?_eq_getElem?]
+          have : R.out.length - 1 = i := by omega
+          rw [this]; exact hi
+        exact (hsizes.2.1 b this).2.1
+    · intro c hc
+      rw [hA]; exact hr.colRows_len hc
+  · intro j cols hj hlt c hc
+    simp only [List.getElem?_map, List.length_map] at hj hlt
+    cases hb : R.out[j]? with
+    | none => simp [hb] at hj
+    | some b =>
+      simp only [hb, Option.map_some, Option.some.injEq] at hj
+      subst hj
+      rw [hA, (hrect b (List.mem_of_getElem? hb)).colRows_len hc]
+      exact hsizes.1 j b hb hlt
 
 /-! ## `processed_with_inputs` -/
 
@@ -421,6 +575,41 @@ example : Ref.CleanRun true [exFilter, exAssign] exSrc :=
 /-- the run is not trivial: two records survive the filter and get the new key -/
 example : ((Impl.run true [exFilter, exAssign] exSrc).out.length = 2 ∧
     (Impl.run true [exFilter, exAssign] exSrc).err.isNone = true) := by decide +kernel
+
+/-- `apply(fn=lambda v: [x + 1 for x in v], input_keys='v', output_keys='o', fn_batch_size=2, batch_size=3)` -/
+def exBatched : Op :=
+  { kind := .apply, inKeys := [.name "v"], outKeys := [.key (.name "o")], fnBatch := 2, batch := 3,
+    fn := fun s args _ => (match args with
+      | [.list xs] => .ok (.list (xs.map fun x => match x with | .int i => .int (i + 1) | y => y))
+      | _ => .error .type, s) }
+
+/-- three incoming column batches of 3, 1 and 2 rows -/
+def exColSrc : List (Ev Val) :=
+  [.ok (.dict [("v", .list [.int 0, .int 1, .int 2])]), .ok (.dict [("v", .list [.int 3])]),
+   .ok (.dict [("v", .list [.int 4, .int 5])])]
+
+/-- the integers of the one column of a record `{key: [..]}` (to read results in the examples) -/
+def colInts : Val → List Int
+  | .dict [(_, .list xs)] => xs.filterMap fun x => match x with | .int i => some i | _ => none
+  | _ => []
+
+/-- the hypothesis of `C08_batched_apply` / `C08_refines_batched_partial` holds for a concrete batched
+operator (both skipping modes), also in a chain with an un-batched operator behind it -/
+example : BatchedOK true exBatched exBatched.s0 exColSrc :=
+  batchedOKB_sound _ _ _ _ (Or.inr rfl) (fun k k' rest h => by simp [exBatched] at h) (by decide +kernel)
+
+example : RunOKG false [exBatched] exColSrc :=
+  ⟨by unfold OpOKG
+      simp only [exBatched]
+      exact batchedOKB_sound _ _ _ _ (Or.inr rfl) (fun k k' rest h => by simp [exBatched] at h) (by decide +kernel), trivial⟩
+
+/-- ... and the conclusion is not trivial: the 6 rows arrive as two records of 3 rows (the function
+was called on groups of 2 rows: 3 calls) -/
+example : (Impl.run false [exBatched] exColSrc).out.map colInts = [[1, 2, 3], [4, 5, 6]] ∧
+    (Impl.run false [exBatched] exColSrc).err = none := by decide +kernel
+
+example : Rebatch.WF 1 ([[Val.list [.int 0, .int 1, .int 2]], [Val.list [.int 3]]].map Ref.asBatch) := by
+  decide
 
 example : Rejected (Build.step {} (.apply none 0 (.single .self) (.single (.key .self)) 2 0)) :=
   (C08_build_rejects {}).1 none 0 _ _ 2 (by decide)
